@@ -15,7 +15,9 @@ CONSTANT DEPTH
 VARIABLES v, stage
 
 MoreAtoms == Atoms \cup {JNum(3, 2), JNum(-1, 4), JStr(<<34, 92, 10>>), JStr(<<233, 128512>>), JInt(999999999)}
-Init == v \in Univ(MoreAtoms, DEPTH, 2) /\ stage = 0
+(* at depth 2 the universe is built over six atoms (one of each kind that the printer treats differently): ~20 000 values *)
+DeepAtoms == {JNull, JTrue, JNum(-1, 4), JInt(999999999), JStr(<<34, 92, 10>>), JStr(<<233, 128512>>)}
+Init == v \in Univ(IF DEPTH >= 2 THEN DeepAtoms ELSE MoreAtoms, DEPTH, 2) /\ stage = 0
 Next == stage = 0 /\ stage' = 1 /\ v' = JsonParse(JsonText(v)).v
 Spec == Init /\ [][Next]_<<v, stage>>
 
